@@ -780,7 +780,7 @@ class Check(BaseCheck):
         if obs[0] == 'ok' and (prog in MUTATING or (isinstance(obs[1], tuple))):
             r.count('nontrivial')
         for k, text in fails:
-            r.violate({'exploration': 'args', 'kind': k, 'program': prog, 'struct': struct},
+            r.violate({'exploration': 'args', 'kind': k, 'program': prog},
                       case, f'{prog}({struct} of {kind}) under ctx {cname}: {k}: {text}; call observed {obs}')
         # a second call with equal arguments observes the same (purity across calls)
         arg2 = STRUCTS[struct](L)
@@ -788,7 +788,7 @@ class Check(BaseCheck):
         obs2, _ = call_judged(fn, args2, ctx)
         r.count('transitions')
         if obs2 != obs:
-            r.violate({'exploration': 'args', 'kind': 'second-call-differs', 'program': prog, 'struct': struct},
+            r.violate({'exploration': 'args', 'kind': 'second-call-differs', 'program': prog},
                       case, f'{prog}({struct} of {kind}) under ctx {cname}: first call {obs}, second call {obs2}')
         return obs
 
@@ -835,8 +835,8 @@ class Check(BaseCheck):
             if fails:
                 f = fails[0]
                 ev = f['event']
-                fam = ev.split(':')[-1].split('@')[0] if ':' in ev else ev
-                r.violate({'exploration': 'histories', 'kind': f['kind'], 'event': ev, 'family': fam},
+                fam = ev.split('@')[0]          # event without its context: call:f, xf:simplify:f, ops:sqrt, stoch
+                r.violate({'exploration': 'histories', 'kind': f['kind'], 'family': fam},
                           {'kind': 'history', 'history': list(h)},
                           f'history {list(h)}: ' + '; '.join(x['text'] for x in fails))
             elif not sampled[0] and len(h) == sample_depth and len(set(h)) == len(h):
